@@ -6,6 +6,7 @@ import Keto.Model.Engine
 import Keto.Spec.Membership
 import Keto.Spec.Positive
 import Keto.Proofs.EngineSound
+import Keto.Props.C01exact
 
 namespace Keto
 
@@ -106,5 +107,31 @@ example : (checkIsMember (Res.error .storage)).1 = false ∧ (checkIsMember Res.
     invertRes ⟨.isMember, some .storage⟩ = Res.error .storage ∧ invertRes Res.nm = Res.isM ∧
     (andRun [constT Res.isM, constT ⟨.isMember, some .storage⟩] {} {}).1 = ⟨.notMember, some .storage⟩ ∧
     (andRun [constT Res.isM, constT Res.isM] {} {}).1 = Res.isM := by decide
+
+/-- Full form for ALL configurations (with `!`), every position, kind and number of failing storage
+    operations (`E.fails` is arbitrary): a run that reports no error and made no limit event answers
+    exactly the stratified semantics of the fault-free store — so whatever a storage failure does to a
+    check, it can only surface as an error (or as a limit event), never as a different answer; in
+    particular never as `isMember` for a request whose semantic answer is "not a member".
+    (Corollary of `C01_exact_all`, which holds for every fault oracle.) -/
+theorem C03_fault_answer_exact_all (E : Env) (hs : E.strict = true → conforms E.cfg E.T = true)
+    (g : Int) (fuel : Nat) (q : Tuple) (r : Int) :
+    (check E g fuel q r).1.err = none → (check E g fuel q r).2.limitHits = 0 →
+    ((check E g fuel q r).1.memb = .isMember ↔ Tr E.cfg E.T q) :=
+  C01_exact_all_iff E hs g fuel q r
+
+/-- Two runs on the same configuration and store that differ ONLY in their fault oracle (e.g. the
+    fault-free run and a run in which some storage operations fail), both without error and without
+    limit event, give the same decision. -/
+theorem C03_fault_independent_all (E : Env) (fails' : Nat → Bool) (hs : E.strict = true → conforms E.cfg E.T = true)
+    (g : Int) (fuel fuel' : Nat) (q : Tuple) (r : Int) :
+    (check E g fuel q r).1.err = none → (check E g fuel q r).2.limitHits = 0 →
+    (check { E with fails := fails' } g fuel' q r).1.err = none →
+    (check { E with fails := fails' } g fuel' q r).2.limitHits = 0 →
+    ((check { E with fails := fails' } g fuel' q r).1.memb = .isMember ↔ (check E g fuel q r).1.memb = .isMember) := by
+  intro h1 h2 h3 h4
+  have a := C01_exact_all_iff E hs g fuel q r h1 h2
+  have b := C01_exact_all_iff { E with fails := fails' } hs g fuel' q r h3 h4
+  exact b.trans a.symm
 
 end Keto
